@@ -40,12 +40,21 @@ LONG = 'lg'
 def contigs():
     """[(name, sequence)].  'db' carries every 3-letter word over ACGTN.  The 'eX' contigs put a G at positions
     0/1 and a C at the last two positions next to every letter X (contexts truncated at both contig ends; one
-    contig has one start and one end, hence several).  'lc' is a soft-masked (lower case) stretch."""
+    contig has one start and one end, hence several).  'lc' is a soft-masked (lower case) stretch;
+    'c1' 'g1' 'cg' 'gc' are shorter than a context; 'mx0' 'mx1' are mixed case; 'iu' carries IUPAC letters R and Y."""
     out = [('db', debruijn(ALPHABET, 3))]
     for x in ALPHABET:
         out.append((f'e{x}', f'{x}GTAC{x}'))
     out.append(('eGC', 'GGCC'))              # G at 0 and 1, C at the last two positions
     out.append(('lc', 'tacgccagctggaca'))
+    # contigs shorter than a three-base context (a C / G whose neighbours do not exist on either side)
+    out.extend([('c1', 'C'), ('g1', 'G'), ('cg', 'CG'), ('gc', 'GC')])
+    # mixed case: the soft-masked word in both alternating-case phases (a context never is all lower or all upper)
+    lc = 'tacgccagctggaca'
+    out.append(('mx0', ''.join(c.upper() if i % 2 else c for i, c in enumerate(lc))))
+    out.append(('mx1', ''.join(c if i % 2 else c.upper() for i, c in enumerate(lc))))
+    # IUPAC ambiguity letters other than N (R = A/G, Y = C/T) as first / second neighbour of a C and of a G
+    out.append(('iu', ''.join(f'C{x}GAC{x}ACG{x}T{x}AG{x}CGT' for x in 'RY')))
     # a contig longer than any plausible reference-window cache: molecules are tiled over it in sequence
     out.append((LONG, debruijn('ACGT', 5)))
     return out
@@ -68,16 +77,21 @@ def write_fasta(path):
 
 
 # ------------------------------------------------------------------------------------------------ shapes
-SHAPES_QUICK = ('single', 'full', 'split', 'gap', 'dove1')
-SHAPES_THOROUGH = ('single', 'full', 'split', 'gap', 'dove1', 'dove2', 'indel')
+SHAPES_QUICK = ('single', 'full', 'split', 'gap', 'dove1', 'evert', 'indel', 'skipN', 'clip3', 'sindel')
+SHAPES_THOROUGH = ('single', 'full', 'split', 'gap', 'dove1', 'dove2', 'evert', 'indel', 'skipN', 'clip3', 'sindel')
+# shapes added by the audit wave: the quick tier runs them on windows up to this length only
+SHAPES_THIN = ('evert', 'indel', 'skipN', 'clip3', 'sindel')
+SINGLE_SHAPES = ('single', 'sindel')
 
 
 def shape_layout(shape, L):
     """Layout of a FORWARD fragment over a window of length L in window offsets:
-    (r1, r2) with r = dict(a, b, ins=None|k, dele=None|k) or None; None when the shape does not fit.
-    ins=k : one extra query base is inserted after k aligned bases;  dele=k : window offset k is deleted."""
-    def iv(a, b, ins=None, dele=None):
-        return {'a': a, 'b': b, 'ins': ins, 'dele': dele}
+    (r1, r2) with r = dict(a, b, ins, dele, skip, clip3, clip5) or None; None when the shape does not fit.
+    ins=k : one extra query base is inserted after k aligned bases;  dele=k : window offset k is deleted (CIGAR D);
+    skip=k : window offset k is skipped (CIGAR N, a spliced read);  clip3 / clip5 : extra soft-clipped bases at the
+    3' / 5' end of the read."""
+    def iv(a, b, ins=None, dele=None, skip=None, clip3='', clip5=''):
+        return {'a': a, 'b': b, 'ins': ins, 'dele': dele, 'skip': skip, 'clip3': clip3, 'clip5': clip5}
     if shape == 'single':
         return iv(0, L), None
     if shape == 'full':
@@ -98,10 +112,24 @@ def shape_layout(shape, L):
         if L < 4:
             return None
         return iv(2, L), iv(0, L - 2)
+    if shape == 'evert':                   # outward facing mates which do not overlap: there is no safe span at all
+        if L < 2:
+            return None
+        return iv((L + 1) // 2, L), iv(0, L // 2)
     if shape == 'indel':
         if L < 3:
             return None
         return iv(0, L, ins=L // 2), iv(0, L, dele=L // 2)
+    if shape == 'skipN':                   # R1 is a spliced read (one reference base skipped), R2 covers everything
+        if L < 3:
+            return None
+        return iv(0, L, skip=L // 2), iv(0, L)
+    if shape == 'clip3':                   # soft clips at the 3' ends of both mates and at the 5' end of R2
+        return iv(0, L, clip3='GG'), iv(0, L, clip3='CC', clip5='TT')
+    if shape == 'sindel':                  # single-end read with a deletion (and an insertion when there is room)
+        if L < 3:
+            return None
+        return iv(0, L, dele=L // 2, ins=(1 if L >= 5 else None)), None
     raise ValueError(shape)
 
 
@@ -112,11 +140,14 @@ def mirror_layout(layout, L):
         if r is None:
             out.append(None)
             continue
-        m = {'a': L - r['b'], 'b': L - r['a'], 'ins': None, 'dele': None}
+        m = dict(r, a=L - r['b'], b=L - r['a'], ins=None, dele=None, skip=None)
+        n_gone = (1 if r['dele'] is not None else 0) + (1 if r['skip'] is not None else 0)
         if r['ins'] is not None:
-            m['ins'] = (r['b'] - r['a']) - r['ins']
+            m['ins'] = (r['b'] - r['a'] - n_gone) - r['ins']
         if r['dele'] is not None:
             m['dele'] = L - 1 - r['dele']
+        if r['skip'] is not None:
+            m['skip'] = L - 1 - r['skip']
         out.append(m)
     return tuple(out)
 
